@@ -1,3 +1,4 @@
 INIT Init
 NEXT Next
+CONSTANT Vals <- ValsQuick
 INVARIANT InjectiveNoLen
